@@ -19,6 +19,7 @@ import (
 	"encoding/binary"
 	"encoding/json"
 	"fmt"
+	"math/big"
 	"os"
 	"path/filepath"
 	"reflect"
@@ -48,6 +49,7 @@ func init() {
 	execs["c08.declen"] = execC08Declen
 	execs["c08.answer"] = execC08Answer
 	execs["c08.answer2"] = execC08Answer2
+	execs["c08.mapint"] = execC08MapInt
 	execs["c08.packet"] = execC08Packet
 	execs["c08.vmstack"] = execC08Vmstack
 	execs["c08.methods"] = execC08Methods
@@ -520,13 +522,10 @@ func c08DeriveStart(t reflect.Type, tag string, start bool) *c08Desc {
 	return c08DeriveInner(t, tag)
 }
 
-// a "^" / "maybe^" tag rejects a library cell whatever the target is (only
-// Ref[T] lets an Any target keep it): a one-field struct has no exemption
+// a "^" / "maybe^" tag rejects a library cell whatever the target is and whether or
+// not a resolver is configured (only Ref[T] resolves it / lets an Any target keep it)
 func c08NoLib(in *c08Desc) *c08Desc {
-	if in.K == "any" || in.K == "rawcell" {
-		return &c08Desc{K: "struct", Sub: []*c08Desc{in}}
-	}
-	return in
+	return &c08Desc{K: "nolib", Sub: []*c08Desc{in}}
 }
 
 // c08Derive: a position inside a cell
@@ -902,6 +901,28 @@ func c08TreeOfSx(v sx.V) *c08Tree {
 	return t
 }
 
+func c08Resolver(pairs sx.V) func(hash tlb.Bits256) (*boc.Cell, error) {
+	type entry struct {
+		hash [32]byte
+		val  *c08Tree
+	}
+	var tab []entry
+	for _, p := range pairs.List {
+		h, err := c08TreeOfSx(p.List[0]).cell().Hash256()
+		if err == nil {
+			tab = append(tab, entry{h, c08TreeOfSx(p.List[1])})
+		}
+	}
+	return func(hash tlb.Bits256) (*boc.Cell, error) {
+		for _, e := range tab {
+			if e.hash == [32]byte(hash) {
+				return e.val.cell(), nil
+			}
+		}
+		return nil, fmt.Errorf("unknown library")
+	}
+}
+
 var c08TlbByDesc = map[string]reflect.Type{}
 
 func execC08Tlb(in sx.V) sx.V {
@@ -911,7 +932,15 @@ func execC08Tlb(in sx.V) sx.V {
 	}
 	cell := c08TreeOfSx(in.List[2]).cell()
 	v := reflect.New(t)
-	if err := tlb.Unmarshal(cell, v.Interface()); err != nil {
+	var err error
+	if len(in.List) >= 5 {
+		// Decoder with a hasher and a library resolver given as (library cell, answer) pairs;
+		// every answer is a fresh cell; an unknown hash is an error
+		err = tlb.NewDecoder().WithLibraryResolver(c08Resolver(in.List[4])).Unmarshal(cell, v.Interface())
+	} else {
+		err = tlb.Unmarshal(cell, v.Interface())
+	}
+	if err != nil {
 		return sx.A("err")
 	}
 	if in.List[0].Bool {
@@ -992,7 +1021,7 @@ func c08GenValid(r *prng.R, d *c08Desc, t *c08Tree, depth int) {
 		}
 	case "ref", "refraw":
 		sub(d.Sub[0])
-	case "hashed":
+	case "hashed", "nolib":
 		c08GenValid(r, d.Sub[0], t, depth)
 	case "mref":
 		if r.Bool() {
@@ -1350,8 +1379,29 @@ type c08UseDest4 struct {
 }
 type c08UseDest5 struct{ A C08Small }
 
+type c08UseDest6 struct {
+	A tlb.Bits256
+	B bool
+}
+type c08UseDest7 struct {
+	A uint8
+	B *tlb.Int257
+	C *big.Int
+}
+
 func c08UseDests() []any {
-	return []any{&c08UseDest1{}, &c08UseDest2{}, &c08UseDest3{}, &c08UseDest4{}, &c08UseDest5{}, new(int64), new(tlb.MsgAddress), new(C08Small), new(boc.Cell)}
+	ds := []any{&c08UseDest1{}, &c08UseDest2{}, &c08UseDest3{}, &c08UseDest4{}, &c08UseDest5{}, &c08UseDest6{}, &c08UseDest7{},
+		new(tlb.MsgAddress), new(C08Small), new(boc.Cell), new([]tlb.VmStackValue), new([]int64), new(tlb.Maybe[int64])}
+	var names []string
+	for n := range c08MapDests {
+		names = append(names, n)
+	}
+	sort.Strings(names)
+	for _, n := range names {
+		d, _ := c08MapDests[n]()
+		ds = append(ds, d)
+	}
+	return ds
 }
 
 type c08User struct {
@@ -1409,7 +1459,7 @@ func (u *c08User) methods(v reflect.Value) {
 			for _, d := range c08UseDests() {
 				d := d
 				// VmStack.Unmarshal documents a pointer to a struct as its destination
-				if strings.HasSuffix(t.String(), "VmStack") && reflect.TypeOf(d).Elem().Kind() != reflect.Struct {
+				if strings.HasSuffix(t.String(), "VmStack") && !strings.HasPrefix(reflect.TypeOf(d).Elem().Name(), "c08UseDest") {
 					continue
 				}
 				u.call(full, func() { fn.Call([]reflect.Value{reflect.ValueOf(d)}) })
@@ -1680,6 +1730,9 @@ func c08Explore(c *Ctx, kind string, in sx.V, typeName string, weight int, extra
 			c.Fail(kind, in, "tlb-use-panic-"+typeName, "decoded without error but unsound ("+unsound+"); its accessor panics: "+use)
 		case unsound != "":
 			c.Fail(kind, in, "tlb-unsound-"+typeName, "decoded without error but unsound: "+unsound)
+		case strings.Contains(use, ".Unmarshal") || strings.Contains(use, "UnmarshalToTlbStruct"):
+			// the stack -> Go value mapping is part of decoding an answer: a panic there is a failure
+			c.Fail(kind, in, "tlb-map-panic-"+typeName, "mapping a soundly decoded value to a Go destination panics: "+use)
 		default:
 			// the value is sound (e.g. the zero value left by a skipped pruned branch):
 			// what the accessor does with it is an API contract, counted as an observation
@@ -2083,6 +2136,41 @@ func execC08Answer2(in sx.V) sx.V {
 	return sx.L(cl(errs[0]), cl(errs[1]))
 }
 
+// VmStackValue.Unmarshal of an integer stack entry into one destination kind
+var c08MapDests = map[string]func() (any, string){
+	"int8": func() (any, string) { return new(int8), "int" }, "int16": func() (any, string) { return new(int16), "int" },
+	"int32": func() (any, string) { return new(int32), "int" }, "int64": func() (any, string) { return new(int64), "int" },
+	"intn":  func() (any, string) { return new(int), "int" },
+	"uint8": func() (any, string) { return new(uint8), "uint" }, "uint16": func() (any, string) { return new(uint16), "uint" },
+	"uint32": func() (any, string) { return new(uint32), "uint" }, "uint64": func() (any, string) { return new(uint64), "uint" },
+	"uintn":    func() (any, string) { return new(uint), "uint" },
+	"bool":     func() (any, string) { return new(bool), "bool" },
+	"bits256":  func() (any, string) { return new(tlb.Bits256), "bits256" },
+	"int257":   func() (any, string) { return new(tlb.Int257), "int257" },
+	"bigint":   func() (any, string) { return new(big.Int), "bigint" },
+	"string":   func() (any, string) { return new(string), "other" },
+	"struct":   func() (any, string) { return new(C08Small), "other" },
+	"pbits256": func() (any, string) { return new(*tlb.Bits256), "pbits256" },
+	"pint257":  func() (any, string) { return new(*tlb.Int257), "pint257" },
+	"pint64":   func() (any, string) { return new(*int64), "pother" },
+}
+
+// c08.mapint: (tiny? z 'kind 'dest) -> 'ok | 'err
+func execC08MapInt(in sx.V) sx.V {
+	z := in.List[1].Int
+	var v tlb.VmStackValue
+	if in.List[0].Bool {
+		v = tlb.VmStackValue{SumType: "VmStkTinyInt", VmStkTinyInt: z.Int64()}
+	} else {
+		v = tlb.VmStackValue{SumType: "VmStkInt", VmStkInt: tlb.Int257(*new(big.Int).Set(z))}
+	}
+	dest, _ := c08MapDests[in.List[3].Atom]()
+	if err := v.Unmarshal(dest); err != nil {
+		return sx.A("err")
+	}
+	return sx.A("ok")
+}
+
 type c08Identity struct{}
 
 func (c08Identity) XORKeyStream(dst, src []byte) { copy(dst, src) }
@@ -2168,6 +2256,180 @@ func c08Boc(cells []c08Cell, roots []int) []byte {
 		b = append(b, byte(r))
 	}
 	return append(b, data...)
+}
+
+func c08BoundaryInts() []*big.Int {
+	p := func(e uint) *big.Int { return new(big.Int).Lsh(big.NewInt(1), e) }
+	sub1 := func(x *big.Int) *big.Int { return new(big.Int).Sub(x, big.NewInt(1)) }
+	neg := func(x *big.Int) *big.Int { return new(big.Int).Neg(x) }
+	return []*big.Int{big.NewInt(0), big.NewInt(1), big.NewInt(-1), big.NewInt(255), big.NewInt(256), big.NewInt(-128), big.NewInt(-129),
+		sub1(p(63)), p(63), neg(p(63)), sub1(neg(p(63))), sub1(p(64)), p(64), p(255), sub1(p(255)), neg(p(255)), sub1(neg(p(255))),
+		sub1(p(256)), neg(sub1(p(256))), neg(p(256)), p(248), sub1(p(248)), neg(p(248))}
+}
+
+// the stack -> Go value mapping of integer entries, compared with Model/VmMap.v
+func genC08MapInt(c *Ctx) {
+	var dests []string
+	for n := range c08MapDests {
+		dests = append(dests, n)
+	}
+	sort.Strings(dests)
+	r := c.R.Fork(9500)
+	zs := c08BoundaryInts()
+	for i := 0; i < c.Scale(10, 200); i++ {
+		z := new(big.Int).SetBytes(r.Bytes(1 + r.Intn(32)))
+		if r.Bool() {
+			z.Neg(z)
+		}
+		zs = append(zs, z)
+	}
+	for _, z := range zs {
+		for _, dn := range dests {
+			_, kind := c08MapDests[dn]()
+			for _, tiny := range []bool{false, true} {
+				if tiny && !z.IsInt64() {
+					continue
+				}
+				in := sx.L(sx.B(tiny), sx.BigZ(z), sx.A(kind), sx.A(dn))
+				out := c.Emit("c08.mapint", in, "mapint|"+kind)
+				if out.IsA("panic") {
+					c.Fail("c08.mapint", in, "tlb-map-panic-VmStackValue", "VmStackValue.Unmarshal panics for stack integer "+z.String()+" and destination "+dn)
+				}
+			}
+		}
+	}
+	// the same integers through the decoder, then the use oracle with every destination
+	vv, vs := c08TypeIndex("VmStackValue"), c08TypeIndex("VmStack")
+	for _, z := range c08BoundaryInts() {
+		m := new(big.Int).Set(z)
+		if m.Sign() < 0 {
+			m.Add(m, new(big.Int).Lsh(big.NewInt(1), 257)) // two's complement in 257 bits
+		}
+		bits := c08BitsOf(0x0200>>1, 15)
+		for i := 256; i >= 0; i-- {
+			bits = append(bits, m.Bit(i) == 1)
+		}
+		c08DirectedCase(c, vv, &c08Tree{Bits: bits})
+		c08DirectedCase(c, vs, &c08Tree{Bits: append(c08BitsOf(1, 24), bits...), Refs: []*c08Tree{{}}})
+		if z.IsInt64() {
+			tb := append(c08BitsOf(1, 8), c08BitsOf(uint64(z.Int64()), 64)...)
+			c08DirectedCase(c, vv, &c08Tree{Bits: tb})
+		}
+	}
+	c08DirectedCase(c, vv, &c08Tree{Bits: c08BitsOf(0x02ff, 16)}) // NaN
+}
+
+// a library cell (kind 2) as it looks on chain: type byte and a 256-bit hash
+func c08LibCell(r *prng.R) *c08Tree {
+	return &c08Tree{Kind: 2, Bits: append(c08BitsOf(2, 8), c08RandBits(r, 256)...)}
+}
+
+func (d *c08Desc) hasKind(ks ...string) bool {
+	for _, k := range ks {
+		if d.K == k {
+			return true
+		}
+	}
+	for _, s := range d.Sub {
+		if s.hasKind(ks...) {
+			return true
+		}
+	}
+	for _, a := range d.Alts {
+		if a.T.hasKind(ks...) {
+			return true
+		}
+	}
+	return false
+}
+
+// Decoder configurations: a hasher and a library resolver that answers with an
+// ordinary cell / an error / a library cell again (the same, another one, a
+// 2-cycle) / a pruned branch / a huge cell.  A decode that does not return is
+// tlb-hang-<Type>.
+func genC08Resolver(c *Ctx) {
+	r := c.R.Fork(9600)
+	hung := map[string]int{}
+	for ti, t := range c08TlbTypes {
+		d := c08DeriveTop(t)
+		if d == nil {
+			continue
+		}
+		name := c08ShortName(t)
+		// when the resolver answers with a library cell again, every nested decode() call
+		// resolves anew, keyed by the hash of the WHOLE cell it is reading; the model keeps
+		// only what is left unread of a cell, so those configurations are compared with the
+		// model for descriptors that never call decode() in the middle of a cell's bits
+		// (plain structs of fixed-width kinds) and run under the hang / panic oracle for the rest
+		plain := !d.hasKind("sum", "maybe", "either", "eref", "ref", "mref", "refraw", "var", "unary", "magic", "any", "cell", "addr",
+			"grams", "snake", "bytes", "text", "ftext", "hm", "hmaug", "bintree", "vmstack", "vmvalue", "vmtuple", "cslice", "fail", "rawcell", "hashed")
+		run := func(tree *c08Tree, pairs [][2]*c08Tree, class string) {
+			if !tree.fits() || hung[name] >= 2 || len(hung) >= 3 {
+				return
+			}
+			libAgain := false
+			for _, p := range pairs {
+				if p[1].Kind == 2 {
+					libAgain = true
+				}
+			}
+			var ps []sx.V
+			for _, p := range pairs {
+				if !p[1].fits() {
+					return
+				}
+				ps = append(ps, sx.L(p[0].sx(), p[1].sx()))
+			}
+			in := sx.L(sx.B(!d.hasAny()), d.sx(), tree.sx(), c08HashFailPaths(tree), sx.L(ps...))
+			// a short probe first: a decoder that keeps resolving must not cost a full timeout per case
+			if probe := guardedExec("c08.tlb", in, 3*time.Second); probe.IsA("timeout") || probe.IsA("crash") {
+				hung[name]++
+				c.Fail("c08.tlb", in, "tlb-hang-"+name, "Decoder.Unmarshal with a library resolver does not return ("+probe.String()+")")
+				return
+			}
+			if libAgain && !plain {
+				if probe := guardedExec("c08.tlb", in, 3*time.Second); probe.IsA("panic") {
+					c.Fail("c08.tlb", in, "tlb-panic", "Decoder.Unmarshal panicked")
+				}
+				c.Note("c08.tlb", "resolver-"+class, in)
+				return
+			}
+			out := c.EmitGuarded("c08.tlb", in, "resolver-"+class)
+			if o := out.String(); strings.Contains(o, "'panic") || strings.Contains(o, "'crash") || strings.Contains(o, "'timeout") {
+				c.Fail("c08.tlb", in, "tlb-panic", "Decoder.Unmarshal panicked / crashed: "+o)
+			}
+		}
+		for k := 0; k < c.Scale(1, 6); k++ {
+			valid := &c08Tree{}
+			c08GenValid(r, d, valid, 0)
+			lib, lib2 := c08LibCell(r), c08LibCell(r)
+			huge := c08RandTree(r, 0)
+			huge.Kind, huge.Bits = 0, c08RandBits(r, 1023)
+			pruned := &c08Tree{Kind: 1, Bits: append(c08BitsOf(1, 8), c08RandBits(r, 8+256+16)...)}
+			run(lib, [][2]*c08Tree{{lib, valid}}, "ordinary")
+			run(lib, nil, "error")
+			run(lib, [][2]*c08Tree{{lib, lib}}, "same")
+			run(lib, [][2]*c08Tree{{lib, lib2}, {lib2, lib}}, "cycle")
+			run(lib, [][2]*c08Tree{{lib, lib2}}, "chain")
+			run(lib, [][2]*c08Tree{{lib, pruned}}, "pruned")
+			run(lib, [][2]*c08Tree{{lib, huge}}, "huge")
+			run(valid, [][2]*c08Tree{{lib, valid}}, "unused")
+			// a library cell behind a reference (not inside dictionaries / bin-trees, whose nodes are read before the check)
+			if !d.hasKind("hm", "hmaug", "bintree", "vmstack", "vmvalue", "vmtuple", "snake", "bytes", "text") {
+				m := valid.clone()
+				var nodes []*c08Tree
+				m.all(&nodes)
+				if len(nodes) > 1 {
+					i := 1 + r.Intn(len(nodes)-1)
+					orig := nodes[i].clone()
+					*nodes[i] = *c08LibCell(r)
+					run(m, [][2]*c08Tree{{nodes[i].clone(), orig}}, "child")
+					run(m, [][2]*c08Tree{{nodes[i].clone(), nodes[i].clone()}}, "child-same")
+				}
+			}
+		}
+		_ = ti
+	}
 }
 
 func genC08Framing(c *Ctx) {
@@ -2300,6 +2562,8 @@ func min(a, b int) int {
 
 func genC08(c *Ctx) {
 	genC08Directed(c) // first: the smallest witnesses are reported before the per-type cap is reached
+	genC08MapInt(c)
+	genC08Resolver(c)
 	genC08TL(c)
 	genC08TLB(c)
 	genC08Framing(c)
